@@ -70,7 +70,7 @@ def batch(args):
     agg = {
         'runs': 0, 'outcomes': {}, 'faults': {}, 'probes': {}, 'sim_time': 0.0, 'steps': 0,
         'exec_jobs': 0, 'digests_nontrivial': [], 'digest_by_index': {}, 'violating': [], 'samples': [],
-        'harness_errors': [], 'families': {}, 'events': 0,
+        'harness_errors': [], 'families': {}, 'events': 0, 'slowest': [],
     }
     seen_classes = {}
     digests = set()
@@ -97,7 +97,12 @@ def batch(args):
         scenario = prop.gen(rs, args.tier)
         scenario.update(property=prop.ID, run_seed=rs, index=index, hashseed=HASHSEEDS[slot],
                         base_seed=args.base_seed, tier=args.tier)
+        t_run = env.real_time()
         res = safe_execute(prop, scenario)
+        t_run = env.real_time() - t_run
+        agg['slowest'].append((round(t_run, 2), index, scenario.get('family', '-')))
+        if len(agg['slowest']) > 40:
+            agg['slowest'] = sorted(agg['slowest'], reverse=True)[:5]
         if is_det:
             agg['digest_by_index'][str(index)] = res['digest']
             if args.sub != 0:
@@ -127,6 +132,7 @@ def batch(args):
             seen_classes[ck] = n + 1
             if n == 0 and len(agg['violating']) < 40:
                 agg['violating'].append({'scenario': scenario, 'violation': v, 'digest': res['digest']})
+    agg['slowest'] = sorted(agg['slowest'], reverse=True)[:5]
     agg['digests_nontrivial'] = sorted(digests)
     agg['violation_classes'] = seen_classes
     with open(args.out, 'w') as f:
